@@ -528,6 +528,18 @@ func (g *PG) builtinCall(sc *scope, ty Ty, depth int) Val {
 		case "empty?":
 			return Call("empty?", g.args(sc, depth, Ty(rapid.SampledFrom([]Ty{TyList, TyStr, TyMap, TyVec}).Draw(g.t, "emptyarg")))...)
 		default:
+			if g.pct(35, "valuepred") {
+				// any? answers the first truthy RESULT of the predicate (not a
+				// boolean): predicates that return data
+				g.stat("any-value-predicate")
+				pred := rapid.SampledFrom([]Val{
+					S("identity"),
+					L(S("lambda"), L(S("e")), L(S("if"), L(S(">"), S("e"), I(1)), L(S("list"), S("e")), L())),
+					L(S("lambda"), L(S("e")), L(S("if"), L(S("="), I(0), L(S("mod"), S("e"), I(2))), L(S("*"), S("e"), I(10)), S("false"))),
+					L(S("lambda"), L(S("e")), L(S("and"), L(S(">"), S("e"), I(0)), Str("hit"))),
+				}).Draw(g.t, "vpred")
+				return Call(pick("any?", "any?", "all?"), pred, g.Expr(sc, TyList, depth-1))
+			}
 			return Call(pick("all?", "any?"), g.predFn(sc, depth), g.Expr(sc, TyList, depth-1))
 		}
 	case TyList:
@@ -535,6 +547,21 @@ func (g *PG) builtinCall(sc *scope, ty Ty, depth int) Val {
 		case "stable-sort":
 			g.stat("sort")
 			less := rapid.SampledFrom([]Val{S("<"), S(">"), QS("<"), L(S("lambda"), L(S("a"), S("b")), L(S("<"), S("a"), S("b")))}).Draw(g.t, "less")
+			if g.pct(25, "longsort") {
+				// stability only shows on inputs long enough to leave the
+				// small-input path of the sorting routine, with many ties
+				g.stat("sort-long-with-ties")
+				n := g.n(13, 40, "longn")
+				items := make([]Val, n)
+				for i := range items {
+					items[i] = I(int64(g.n(0, 29, "longv")))
+				}
+				k := int64(g.n(2, 4, "buckets"))
+				if g.pct(50, "long-keyfun") {
+					return Call("stable-sort", less, QL(items...), L(S("lambda"), L(S("e")), L(S("mod"), S("e"), I(k))))
+				}
+				return Call("stable-sort", L(S("lambda"), L(S("a"), S("b")), L(S("<"), L(S("mod"), S("a"), I(k)), L(S("mod"), S("b"), I(k)))), QL(items...))
+			}
 			if g.pct(30, "keyfun") {
 				return Call("stable-sort", less, g.Expr(sc, TyList, depth-1), rapid.SampledFrom([]Val{S("-"), S("identity")}).Draw(g.t, "keyfun"))
 			}
